@@ -602,3 +602,31 @@ func genBase(r *sim.Rand, room int) (bool, uint32) {
 	}
 	return true, bank<<16 | uint32(r.Intn(maxOff))
 }
+
+// mkTarget allocates an emitter target of length n. The seam (S8) is the slice the caller
+// hands over: its len is the capacity the library may use. In half of the runs (spare = true)
+// the slice is a window into a larger backing array — as when assembling into a ROM image —
+// so cap(target) > len(target); the bytes behind the window belong to the caller and are
+// returned as guard for a must-stay-untouched check.
+func mkTarget(n int, spare bool) (target []byte, guard []byte) {
+	if !spare {
+		return make([]byte, n), nil
+	}
+	backing := make([]byte, n+48)
+	for i := range backing {
+		backing[i] = 0xC3
+	}
+	for i := 0; i < n; i++ {
+		backing[i] = 0
+	}
+	return backing[:n], backing[n:]
+}
+
+func guardIntact(g []byte) bool {
+	for _, b := range g {
+		if b != 0xC3 {
+			return false
+		}
+	}
+	return true
+}
